@@ -346,8 +346,10 @@ PROPS = {
         "n_quick": 40000, "n_thorough": 400000, "thorough_seeds": 3,
         "rule": CODEC_RULE,
         "level_text": "Partial by nature: on JSON trees the decoders are total functions (no panic outcome exists) and the proved round trips are Event (all seven fields, event_roundtrip), "
-                      "the EVENT/AUTH/server-EVENT messages, EOSE/NOTICE/AUTH/CLOSE for every string, and COUNT replies up to 2^64-1 (count_roundtrip); arities, labels, key tests and the prefix "
-                      "order are regenerated. Filter / REQ / COUNT / OK / CLOSED round trips, decode-encode-decode and panic-freedom of the Go code on arbitrary bytes are runtime-validated: every "
+                      "the EVENT/AUTH/server-EVENT messages, EOSE/NOTICE/AUTH/CLOSE for every string, COUNT replies up to 2^64-1 (count_roundtrip), and OK / CLOSED compared as prefix++text (ok_roundtrip, closed_roundtrip; exactly when the prefix is one of the six "
+                      "machine-readable ones: ok_roundtrip_known, closed_roundtrip_known, from parsePrefix_join / parsePrefix_known), with decode-encode-decode = decode for OK (ok_dec_enc_dec); "
+                      "arities, labels, key tests and the prefix order are regenerated. Filter / REQ / COUNT(client) round trips, decode-encode-decode of the other types and panic-freedom of the "
+                      "Go code on arbitrary bytes are runtime-validated: every "
                       "generated text is decoded by the real code under recover and compared with the model value by value (0 differences required).",
         "level_note": "Trusted: Lean kernel + standard axioms; go2lean; harness/driver; encoding/json's tokenizer, string unescaping, UTF-8 repair and reflection encoder (the tree handed to "
                       "the model is produced by Go's own decoder). A bare top-level `null` (a no-op by Go's Unmarshaler convention) is outside the claim.",
